@@ -2472,7 +2472,9 @@ fn compress_inner(
 
     let one_probe = d.params.flags & MAX_PROBES_MASK == 1;
     let greedy = d.params.flags & TDEFL_GREEDY_PARSING_FLAG != 0;
-    let filter_or_rle = d.params.flags & (TDEFL_FILTER_MATCHES | TDEFL_FORCE_ALL_RAW_BLOCKS) != 0;
+    let filter_or_rle = d.params.flags
+        & (TDEFL_FILTER_MATCHES | TDEFL_FORCE_ALL_RAW_BLOCKS | TDEFL_RLE_MATCHES)
+        != 0;
 
     let raw = d.params.flags & TDEFL_FORCE_ALL_RAW_BLOCKS != 0;
 
